@@ -24,13 +24,13 @@ CHECKS = {
         technique="SMT-based translation validation (symbolic execution of emitted Simplicity, z3 QF_UFBV); fold functions as uninterpreted functions",
         text="One fold per program; list bounds 2..256 (512 thorough), EVERY length, literal / witness / computed lists, element types u8,(u8,u8),Option<u8>,[u8;3]; "
              "fold functions both arbitrary (all jets uninterpreted: the verdict holds for every f) and concrete order-sensitive ones (replayable). The solver proves for all element values "
-             "and accumulators that the emitted DAG equals the left-to-right source-level fold including failure; for N<=32 (128 thorough) one query covers all lengths at once (symbolic block-presence bits, fold function arbitrary).",
+             "and accumulators that the emitted DAG equals the left-to-right source-level fold including failure; for N<=32 (64 thorough) one query covers all lengths at once (symbolic block-presence bits, fold function arbitrary).",
         note=TRUST_E1),
     "C09": dict(
         engine="simsym", category="translation_validation", ref="DESIGN.md 2, 5 (C09)",
         technique="SMT-based translation validation (symbolic execution of emitted Simplicity, z3 QF_UFBV); symbolic exit iteration, uninterpreted accumulator updates",
         text="One for_while per program, counter widths 1,2,4,8 with the exit iteration decided by a witness (so one query covers every exit iteration and 'never'), bodies that panic after the "
-             "exit point, ignore the counter, use tuple accumulators / unit contexts / a result type different from the accumulator; 16-bit counters in thorough with the exit point given as one of 10 literals. "
+             "exit point, ignore the counter, use tuple accumulators / unit contexts / a result type different from the accumulator; 16-bit counters in thorough with the exit point given as one of 8 literals <= 4095 (longer 16-bit runs take 45-90 min each in this engine and are outside the claim). "
              "The solver proves equality with the source-level loop 'first Left wins, later iterations are not evaluated, Right(acc) after 2^n iterations' for all accumulator/context values.",
         note=TRUST_E1),
     "C10": dict(
